@@ -60,6 +60,9 @@ type case = {
 let join sep l = String.concat sep l
 let ids_str l = match l with [] -> "-" | _ -> join "," (List.map (fun x -> string_of_int (int_of_n x)) l)
 
+(* argv[3] = "flushall": the tree under test calls Assembler.FlushAll after the packet loop *)
+let final_flush = Array.length Sys.argv > 3 && Sys.argv.(3) = "flushall"
+
 let run_case oc (c : case) =
   let files = Array.of_list c.files in
   let nf = Array.length files in
@@ -105,7 +108,7 @@ let run_case oc (c : case) =
         (fun k (flags, fl) ->
           if flags land 2 <> 0 then b := { !b with b_snaps = [] };
           let newfiles = List.map (fun f -> n_of_int rank_of.(f)) fl in
-          let b', r = import (fun a -> a) (n_of_int snapevery) !b store newfiles !stack in
+          let b', r = import (fun a -> a) (n_of_int snapevery) final_flush !b store newfiles !stack in
           b := b';
           let nw, upd, rs, ad =
             match r with
